@@ -18,6 +18,8 @@ enum VState {
     RpcInFlight,
     HalfContent,
     Publishing,
+    /// the owner calls Channel::close at the same moment (the two closes cross)
+    ClientClosing,
 }
 
 fn case(r: &mut Rng, res: &mut CaseResult) {
@@ -118,7 +120,7 @@ fn case(r: &mut Rng, res: &mut CaseResult) {
             vsent[k].push((dtag, body));
         }
         // the state in which the close finds the channel
-        let state = *r.pick(&[VState::Idle, VState::RpcInFlight, VState::RpcInFlight, VState::HalfContent, VState::Publishing]);
+        let state = *r.pick(&[VState::Idle, VState::RpcInFlight, VState::RpcInFlight, VState::HalfContent, VState::Publishing, VState::ClientClosing]);
         let react_drop = r.bool();
         match state {
             VState::Idle => {}
@@ -139,6 +141,12 @@ fn case(r: &mut Rng, res: &mut CaseResult) {
             VState::Publishing => {
                 for _ in 0..r.usize(1, 20) {
                     victim.send(Cmd::Publish(r.usize(0, 3000)));
+                }
+            }
+            VState::ClientClosing => {
+                victim.send(Cmd::Close);
+                if r.bool() {
+                    std::thread::sleep(std::time::Duration::from_micros(r.range(0, 300)));
                 }
             }
         }
@@ -168,6 +176,10 @@ fn case(r: &mut Rng, res: &mut CaseResult) {
                 rf.note_server_bytes(&bytes);
                 out.push(bytes);
             });
+        } else if state == VState::ClientClosing {
+            // a broker that has already seen the client's Close has nothing left to close
+            let sent = h.server_close_channel(n, code, &text);
+            res.obs(if sent { "crossing_closes_server_sent" } else { "crossing_closes_client_won" }, 1);
         } else {
             h.inject(chan_close_frame(n, code, &text));
         }
@@ -175,6 +187,32 @@ fn case(r: &mut Rng, res: &mut CaseResult) {
         if stalled {
             std::thread::sleep(std::time::Duration::from_micros(r.range(100, 3000)));
             h.grant(usize::MAX);
+        }
+        if state == VState::ClientClosing {
+            // the two closes crossed (or the client's won): Channel::close returns Ok or the
+            // server's close error; either way everybody else must be unaffected
+            match victim.reply(W) {
+                Some(Rep::Done(Ok(()))) => {}
+                Some(Rep::Done(Err(e))) if e == want_err => {}
+                // with consumers attached, dropping them (each drop is a cancel call) comes
+                // first and is the "next call" that carries the close error; close() itself
+                // then just keeps failing
+                Some(Rep::Done(Err(_))) if !vtags.is_empty() => {}
+                other => res.violate("wrong_error_on_closed_channel", format!("Channel::close crossing the server's close of channel {}: {:?}, want Ok or Err({})", n, other, want_err)),
+            }
+            // (the broker stays in its closing state for n until the client's CloseOk arrives:
+            // frames the client had queued before it saw the close are discarded, not answered)
+            victim.send(Cmd::Stop);
+            res.obs("crossing_closes", 1);
+            // Let the server's answer to the client's own Close (if any) arrive before the id
+            // is reused: a reply on another channel travels behind it. (Reusing the id while
+            // that answer is outstanding is the separate, known finding D15: see
+            // `crossing_then_reopen`.)
+            if let Err(e) = done(watchers[0].0.call(Cmd::Rpc)) {
+                res.violate("bystander_disturbed", format!("watcher channel {} after a crossing close: {} (closes: {:?})", watchers[0].0.id, e, log));
+                break;
+            }
+            continue;
         }
         // the client must answer CloseOk on n
         if !h.wait(W, |st| st.reflex.chan_close_oks.iter().filter(|c| **c == n).count() > before) {
@@ -307,6 +345,78 @@ fn case(r: &mut Rng, res: &mut CaseResult) {
     hooks::set_failpoint_delay(0);
 }
 
+/// The client's Channel.Close(n) and the server's Channel.Close(n) cross, and the
+/// application reopens id n at once, while the server's CloseOk for the client's Close is
+/// still on its way. Forced deterministically with a stalled transport.
+fn crossing_then_reopen(res: &mut CaseResult) {
+    let (conn, h) = session::open_default(Reflex::default());
+    let mut conn = match conn {
+        Ok(c) => c,
+        Err(e) => {
+            res.inconclusive(format!("handshake: {}", ek(&e)));
+            return;
+        }
+    };
+    let (vch, other) = match (conn.open_channel(Some(7)), conn.open_channel(None)) {
+        (Ok(a), Ok(b)) => (a, b),
+        _ => {
+            res.inconclusive("open_channel failed");
+            return;
+        }
+    };
+    let victim = Actor::spawn(vch, "victim");
+    let bystander = Actor::spawn(other, "bystander");
+    // nothing can be written: the client's Close(7) stays in its output buffer
+    h.with(|st| st.budget = 0);
+    victim.send(Cmd::Close);
+    std::thread::sleep(std::time::Duration::from_millis(3));
+    // the server closes channel 7 on its own (it has not seen the client's Close)
+    if !h.server_close_channel(7, 404, "NOT_FOUND") {
+        res.inconclusive("the client's Close got through although the transport was stalled");
+        return;
+    }
+    match victim.reply(W) {
+        Some(Rep::Done(Err(e))) if e.starts_with("ServerClosedChannel(7,404") => {}
+        Some(Rep::Done(Ok(()))) => {}
+        other => res.violate("wrong_error_on_closed_channel", format!("Channel::close crossing the server's close: {:?}", other)),
+    }
+    victim.send(Cmd::Stop);
+    // the id is available again: reopen it right away (the request queues behind the stall)
+    let t = run::spawn("reopen", move || {
+        let r = conn.open_channel(Some(7)).map(|c| {
+            let ok = c.qos(0, 0, false).map_err(|e| ek(&e));
+            let _ = c.close();
+            ok
+        });
+        (conn, r.map_err(|e| ek(&e)))
+    });
+    std::thread::sleep(std::time::Duration::from_millis(3));
+    h.grant(usize::MAX);
+    match t.join(W) {
+        J::Done((conn, r)) => {
+            match r {
+                Ok(Ok(())) => {}
+                other => res.violate(
+                    "crossing_close_then_reopen",
+                    format!("channel 7 reopened right after a crossing close: open_channel(Some(7)) / first call = {:?} (the server's CloseOk for the client's own Close hit the new channel)", other),
+                ),
+            }
+            if let Err(e) = done(bystander.call(Cmd::Rpc)) {
+                res.violate("crossing_close_then_reopen", format!("bystander channel after the reopen: {} (the connection died)", e));
+            }
+            bystander.send(Cmd::Stop);
+            let t = run::spawn("close", move || conn.close());
+            match t.join(W) {
+                J::Done(Ok(())) => {}
+                J::Done(Err(e)) => res.violate("crossing_close_then_reopen", format!("Connection::close after the reopen: {}", ek(&e))),
+                _ => res.violate("connection_disturbed", "close did not return".to_string()),
+            }
+        }
+        _ => res.violate("crossing_close_then_reopen", "open_channel(Some(7)) after a crossing close did not return".to_string()),
+    }
+    let _ = run::take_panics();
+}
+
 fn done(r: Option<Rep>) -> Result<(), String> {
     match r {
         Some(Rep::Done(r)) => r,
@@ -316,6 +426,17 @@ fn done(r: Option<Rep>) -> Result<(), String> {
 
 pub fn run(rc: &mut RunCtx) {
     let seed = rc.seed;
+    for i in 0..rc.n(2, 6) {
+        let id = format!("crossing-reopen:{}", i);
+        if !rc.mine(&id) {
+            continue;
+        }
+        rc.begin(&id);
+        let mut res = CaseResult::new(id);
+        crossing_then_reopen(&mut res);
+        res.sample = Some(json!({"scenario": "client Close(7) and server Close(7) cross behind a stalled transport, id 7 reopened at once"}));
+        rc.end(res);
+    }
     let n = rc.n(800, 10000);
     for i in 0..n {
         let id = format!("close:{}", i);
